@@ -29,6 +29,12 @@ THEOREMS = [
     "FP.Props.C20.leading_lines_ignored",
     "FP.Props.C20.no_header_no_graphs",
     "FP.Props.C20.exFile_wf",
+    "FP.Props.C20.splitWs_tokens_clean",
+    "FP.Props.C20.splitWs_join",
+    "FP.Props.C20.classify_data_line",
+    "FP.Props.C20.classify_edge_line",
+    "FP.Props.C20.classify_subpath_line",
+    "FP.Props.C20.classify_blank_iff",
 ]
 IMPORTS = ["FP.Props.C20"]
 RULE = ("file descriptions generated directly: 1-4 blocks; per block 1-3 header lines ('#', '##', indentation, empty "
@@ -46,12 +52,17 @@ RULE = ("file descriptions generated directly: 1-4 blocks; per block 1-3 header 
         "at least one edge line or one '#S' line.")
 MODEL_SCOPE = ("modelled: read_graph (header scan, '#S' duplicate filter, id, blank skipping, vertex-count line, "
                "zero-vertex branch (ValueError on constraints / data lines, n=m=w=0), edge loop, add_edge overwrite semantics, constraint validation, n/m, the "
-               "source/sink ValueError of stDiGraph) and read_graphs (block splitting). Not modelled: characters "
-               "(str.strip/lstrip/split/startswith), int()/float() literal recognition, the value of get_width() "
-               "(checked by the width oracle instead), file I/O and newline translation.")
-TRUSTED = ["the line classifier `classify` in harness/props/c20.py uses str.lstrip/strip/split/startswith exactly as "
-           "graphutils.read_graph does (pinned by the K1 comparison on every generated file)",
-           "int()/float() tables are produced by the running CPython"]
+               "source/sink ValueError of stDiGraph) and read_graphs (block splitting); the str primitives through which "
+               "the code looks at characters (str.strip/lstrip/split/startswith('#')/startswith('#S')/[2:]/lstrip('#'), "
+               "whitespace = the 29 code points of str.isspace()) are modelled in FP/Model/Lexer.lean (`classify`) and "
+               "tied by suite K1.lexer. Not modelled (oracle parameters): int()/float() literal recognition, the value "
+               "of get_width() (checked by the width oracle instead); file I/O and newline translation.")
+TRUSTED = ["int()/float() tables are produced by the running CPython (oracle parameters of the model, with the width)",
+           "the K1 `parse` requests still carry lines classified by the python function `classify` (the real str "
+           "primitives, as read_graph uses them); K1.lexer compares that function with the Lean `classify` on every "
+           "line of every generated file and on a dedicated character stream, and K1.lexer.e2e replays sampled files "
+           "with the classification done by Lean",
+           "lone surrogate code points (not Unicode scalar values, not representable as Lean `Char`) are not exercised"]
 ASSUMPTIONS = ["graphs without source or sink: the model raises as stDiGraph documents; a separate oracle (site "
                "AbstractSourceSinkGraph) checks that no graph without source/sink is accepted by stDiGraph (defect "
                "fixed by 49fd43a, the oracle stays)",
@@ -102,8 +113,14 @@ def py_float(s):
         return None
 
 
-def request(lines, single=False):
-    cl = [classify(l) for l in lines]
+LEX_POOL = set()     # every distinct raw line that went through the python classifier (compared in K1.lexer)
+K1_TEXTS = []        # the file texts of the K1 suites (a sample is replayed in K1.lexer.e2e)
+
+
+def request(lines, single=False, cl=None):
+    if cl is None:
+        LEX_POOL.update(lines)
+    cl = [classify(l) for l in lines] if cl is None else cl
     ints, floats = {}, {}
     for c in cl:
         if c["k"] == "data":
@@ -232,6 +249,7 @@ def k1(ctx, suite, text, nontrivial=True, hist=None, lines=None):
     res = run_impl(ctx.fp, text)
     obs = ("ok", [graph_obs(G) for G in res[1]]) if res[0] == "ok" else res
     model = ctx.driver.call(request(lines))
+    K1_TEXTS.append(text)
     ctx.rep.count(suite, text, nontrivial=nontrivial, hist=hist or [])
     ctx.rep.cov["traces_validated_against_impl"] += 1
     if not same(obs, model):
@@ -708,6 +726,124 @@ def soup(rng):
     return [rng.choice(pool) for _ in range(rng.randint(0, 9))]
 
 
+# ------------------------------------------------------------------------------------------------- K1.lexer
+
+PY_SPACES = ([chr(i) for i in range(0x9, 0xE)] + [chr(i) for i in range(0x1C, 0x21)] + ["\x85", "\xa0", "\u1680"]
+             + [chr(i) for i in range(0x2000, 0x200B)] + ["\u2028", "\u2029", "\u202f", "\u205f", "\u3000"])
+# neighbours of the table that are NOT whitespace for str (incl. U+200B, U+FEFF, U+180E, NUL), and non-BMP characters
+NON_SPACES = ["\x00", "\x08", "\x0e", "\x1b", "\x21", "\x7f", "\x84", "\x86", "\x9f", "\xa1", "\u167f", "\u1681",
+              "\u180e", "\u1fff", "\u200b", "\u200c", "\u2027", "\u202a", "\u202e", "\u2030", "\u205e", "\u2060",
+              "\u2fff", "\u3001", "\ufeff", "\uffff", "\U00010000", "\U0001d518", "\U0001f600", "\U000e0020",
+              "\U0010ffff", "\ud7ff", "\ue000"]
+LEX_LISTED = ["", "#", "#S", "##S", "# S", "#Sx", "#S x", "#s a", " #", "\t#S a b", "\u3000# h", "\xa0#S\x1fa\u2028b",
+              "S#", "a#S", "#\x00S", "###", "# # #", "#S#S", "#S #", "\n", "\r\n", " \n", "a b 1\n", "\x1c\x1d\x1e\x1f",
+              "\u2000\u2001\u2002\u2003\u2004\u2005\u2006\u2007\u2008\u2009\u200a", "\u200b", "\ufeff#S a",
+              "a\x00b c 1", "\x00", "#S\x00", "\U0001d518 \U0001f600 1", "#\U0001d518", "##  x  ##", "#  S a",
+              "#S\u3000\u3000", "# \x85 ", "x\x0by\x0cz"]
+
+
+def lex_norm_py(line):
+    c = classify(line)
+    return {"kind": c["k"], "text": c.get("text", ""), "tokens": list(c.get("tokens", []))}
+
+
+def lex_line(rng):
+    """one line of the dedicated stream: pieces drawn from tokens, every whitespace character, '#', '#S', ..."""
+    def tok():
+        k = rng.randint(1, 4)
+        return "".join(rng.choice(["a", "b", "7", ".", "-", "S", "#", "x"] + NON_SPACES) for _ in range(k))
+
+    def ws():
+        return "".join(rng.choice(PY_SPACES) for _ in range(rng.randint(1, 3)))
+    shape = rng.randint(0, 5)
+    if shape == 0:                     # only whitespace (possibly empty)
+        return "".join(rng.choice(PY_SPACES) for _ in range(rng.randint(0, 5)))
+    pieces = []
+    if rng.random() < 0.5:
+        pieces.append(ws())
+    if shape in (1, 2):
+        pieces.append(rng.choice(["#", "#S", "##S", "# S", "#Sx", "##", "#s", "#S#", "#\x00", "S#"]))
+        if rng.random() < 0.7:
+            pieces.append(ws())
+    for _ in range(rng.randint(0, 4)):
+        pieces.append(tok())
+        pieces.append(ws() if rng.random() < 0.9 else "")
+    if rng.random() < 0.3:
+        pieces.append(rng.choice(["\n", "\r\n", "\r"]))
+    return "".join(pieces)
+
+
+def lex_to_cl(m):
+    """driver answer of `lex.classify` -> the line format of the `parse` request"""
+    if m["kind"] == "header":
+        return {"k": "header", "text": m["text"]}
+    if m["kind"] == "subpath":
+        return {"k": "subpath", "tokens": m["tokens"]}
+    if m["kind"] == "blank":
+        return {"k": "blank"}
+    return {"k": "data", "text": m["text"], "tokens": m["tokens"]}
+
+
+def lean_classify(ctx, lines):
+    """the Lean classification of the lines; both transports (JSON strings, code-point arrays) must agree"""
+    out = []
+    for i in range(0, len(lines), 200):
+        chunk = lines[i:i + 200]
+        ans = ctx.driver.call({"op": "lex.classify", "lines": chunk, "cps": [[ord(c) for c in l] for l in chunk]})
+        a, b = ans[:len(chunk)], ans[len(chunk):]
+        for l, x, y in zip(chunk, a, b):
+            m = {"kind": y["kind"], "text": "".join(map(chr, y["text_cp"])),
+                 "tokens": ["".join(map(chr, t)) for t in y["tokens_cp"]]}
+            ms = {"kind": x["kind"], "text": x["text"], "tokens": x["tokens"]}
+            ms_cp = {"kind": x["kind"], "text": "".join(map(chr, x["text_cp"])),
+                     "tokens": ["".join(map(chr, t)) for t in x["tokens_cp"]]}
+            if not (m == ms == ms_cp):
+                ctx.disagree("K1.lexer", {"line": l, "cps": [ord(c) for c in l], "what": "JSON string transport vs "
+                             "code-point transport"}, m, {"strings": ms, "strings_cp": ms_cp})
+            out.append(m)
+    return out
+
+
+def k1_lexer(ctx, lines, origin):
+    lines = list(lines)
+    models = lean_classify(ctx, lines)
+    for l, model in zip(lines, models):
+        impl = lex_norm_py(l)
+        exotic = any(ord(c) > 0x7f or ord(c) < 0x20 and c not in "\t\n" for c in l)
+        hist = [origin, "kind=" + impl["kind"], "tokens=%d" % min(len(impl["tokens"]), 5)]
+        if exotic:
+            hist.append("non-ASCII / control characters")
+        if any(ord(c) > 0xffff for c in l):
+            hist.append("non-BMP")
+        if "\x00" in l:
+            hist.append("NUL")
+        ctx.rep.count("K1.lexer", l, nontrivial=l.strip() != "", hist=hist)
+        ctx.rep.cov["traces_validated_against_impl"] += 1
+        if impl != model:
+            ctx.disagree("K1.lexer", {"line": l, "cps": [ord(c) for c in l]}, impl, model)
+
+
+def k1_lexer_e2e(ctx, lines, single=False):
+    """end to end: read_graphs / read_graph of the code on the raw lines against the model fed with the LEAN
+    classification of the same raw lines"""
+    text = "".join(lines)
+    cl = [lex_to_cl(m) for m in lean_classify(ctx, list(lines))]
+    if single:
+        try:
+            res = ("ok", [ctx.fp.utils.graphutils.read_graph(list(lines))])
+        except Exception as e:                # noqa
+            res = ("exc", type(e).__name__, exc_kind(e))
+    else:
+        res = run_impl(ctx.fp, text)
+    obs = ("ok", [graph_obs(G) for G in res[1]]) if res[0] == "ok" else res
+    model = ctx.driver.call(request(lines, single=single, cl=cl))
+    ctx.rep.count("K1.lexer.e2e", text, nontrivial=True, hist=["read_graph direct" if single else "read_graphs"])
+    ctx.rep.cov["traces_validated_against_impl"] += 1
+    if not same(obs, model):
+        if not source_sink_oracle(ctx, text, res, model):
+            ctx.disagree("K1.lexer.e2e", finp(text, single_block=single), obs if obs[0] == "exc" else obs[1], model)
+
+
 def run(ctx):
     rng = ctx.rng
     from fpv import common
@@ -754,6 +890,19 @@ def run(ctx):
     set_logging(ctx.fp, True)           # (the harness default)
     LOG["debug"] = False
     ctx.rep.cov["corruptions"] = done
+    # ---- character level: python str primitives (as used by read_graph) vs FP/Model/Lexer.lean
+    set_logging(ctx.fp, False)
+    pool = sorted(LEX_POOL)
+    k1_lexer(ctx, pool, "line of a generated / corpus file")
+    k1_lexer(ctx, LEX_LISTED, "listed")
+    k1_lexer(ctx, [a + b + c for a in ["", "x"] for b in PY_SPACES + NON_SPACES for c in ["", "y", "#", "#S y"]],
+             "every table character in every position")
+    k1_lexer(ctx, [lex_line(rng) for _ in range(ctx.n(4000, 60000))], "character stream")
+    ctx.rep.cov["lexer_lines_from_files"] = len(pool)
+    texts = sorted(set(K1_TEXTS))
+    for text in rng.sample(texts, min(len(texts), ctx.n(200, 3000))):
+        k1_lexer_e2e(ctx, file_lines(text))
+    set_logging(ctx.fp, True)
 
 
 def search(ctx):
@@ -782,6 +931,9 @@ def search(ctx):
 
 def replay(ctx, payload):
     inp = payload.get("input") or (payload.get("disagreements") or [{}])[0].get("input")
+    if inp and "line" in inp:
+        k1_lexer(ctx, [inp["line"]], "replay")
+        print("impl:", lex_norm_py(inp["line"])); return
     if not inp or "file" not in inp:
         print("nothing to replay"); return
     text = inp["file"]
